@@ -1177,14 +1177,22 @@ def cli(argv):
 NEWLINES = {'lf': '\n', 'crlf': '\r\n', 'cr': '\r', 'native': os.linesep, None: os.linesep}
 
 
-def cli_case(src, file_nl, cfg, tag):
-    """-> list of (kind, what) violations for one file content x configuration."""
+def cli_case(src, file_nl, cfg, tag, ec_eol=None):
+    """-> list of (kind, what) violations for one file content x configuration.  ec_eol: end_of_line given by an .editorconfig
+    beside the file (read because of -e) instead of / in addition to the configuration file."""
     d = os.path.join(work_dirs()['cli'], '%d-%s' % (os.getpid(), tag))
     os.makedirs(d, exist_ok=True)
     f = os.path.join(d, 'meson.build')
     data = src.replace('\n', file_nl).encode()
     cf = cfg_file(cfg)
     viols = []
+    ecp = os.path.join(d, '.editorconfig')
+    if ec_eol:
+        with open(ecp, 'w') as fh:
+            fh.write('root = true\n[meson.build]\nend_of_line = %s\n' % ec_eol)
+    elif os.path.exists(ecp):
+        os.unlink(ecp)
+    E = ['-e'] if ec_eol else []
 
     def put():
         with open(f, 'wb') as fh:
@@ -1195,26 +1203,26 @@ def cli_case(src, file_nl, cfg, tag):
             return fh.read()
     try:
         put()
-        rc_check, _ = cli(['-c', cf, '--check-only', f])
+        rc_check, _ = cli(E + ['-c', cf, '--check-only', f])
         if get() != data:
             viols.append(('check-only-writes', '--check-only modified the file'))
             put()
-        rc_diff, diff = cli(['-c', cf, '--check-diff', f])
+        rc_diff, diff = cli(E + ['-c', cf, '--check-diff', f])
         if get() != data:
             viols.append(('check-diff-writes', '--check-diff modified the file'))
             put()
-        rc_in, _ = cli(['-c', cf, '--inplace', f])
+        rc_in, _ = cli(E + ['-c', cf, '--inplace', f])
         written = get()
-        rc_in2, _ = cli(['-c', cf, '--inplace', f])
+        rc_in2, _ = cli(E + ['-c', cf, '--inplace', f])
         written2 = get()
         o = os.path.join(d, 'out.build')
         put()
-        cli(['-c', cf, '--output', o, f])
+        cli(E + ['-c', cf, '--output', o, f])
         outb = get(o)
     except MesonException:
         return 'impl_rejects', [], {}
     would_change = written != data
-    info = 'file_nl=%r end_of_line=%r' % (file_nl, cfg.get('end_of_line'))
+    info = 'file_nl=%r end_of_line=%r editorconfig end_of_line=%r' % (file_nl, cfg.get('end_of_line'), ec_eol)
     if (rc_check == 1) != would_change:
         norm_eq = written.replace(b'\r\n', b'\n').replace(b'\r', b'\n') == data.replace(b'\r\n', b'\n').replace(b'\r', b'\n')
         if rc_check == 0 and norm_eq:
@@ -1236,7 +1244,7 @@ def cli_case(src, file_nl, cfg, tag):
     # the bytes written are the in-process result with the configured line ending
     try:
         formatted = real_format(src, cfg)
-        nl = NEWLINES[cfg.get('end_of_line')]
+        nl = NEWLINES[cfg.get('end_of_line') or ec_eol]      # the configuration file wins over .editorconfig
         if written != formatted.replace('\n', nl).encode():
             viols.append(('inplace:bytes', '--inplace bytes are not format() with end_of_line applied (%s)' % info))
     except MesonException:
@@ -1257,9 +1265,10 @@ CLI_PROGRAMS = [
 
 
 def w_cli(item):
-    idx, src, file_nl, cfg = item
-    st, viols, info = cli_case(src, file_nl, cfg, 'c%d' % (idx % 64))
-    return src, file_nl, cfg, st, viols, info
+    idx, src, file_nl, cfg = item[:4]
+    ec = item[4] if len(item) > 4 else None
+    st, viols, info = cli_case(src, file_nl, cfg, 'c%d' % (idx % 64), ec)
+    return src, file_nl, dict(cfg, **({'(editorconfig end_of_line)': ec} if ec else {})), st, viols, info
 
 
 # ============================================================================================================
@@ -1536,6 +1545,10 @@ def main():
                         if eol:
                             cfg['end_of_line'] = eol
                         items.append((len(items), src, file_nl, cfg))
+                # end_of_line from an .editorconfig (with and without a configuration file that sets it too)
+                for ec in ('lf', 'crlf', 'cr'):
+                    for cfg in ({}, {'end_of_line': 'lf'}, {'end_of_line': 'crlf'}):
+                        items.append((len(items), src, file_nl, cfg, ec))
         # one rotating program for every configuration of the product (end_of_line included)
         if ck.want('configs'):
             for i, cfg in enumerate(all_configs()):
@@ -1619,8 +1632,10 @@ def replay(ck):
     cfg = d.get('cfg') or {}
     work_dirs()
     if d.get('family') == 'cli':
-        st, viols, _ = cli_case(d['src'], d['file_nl'], cfg, 'replay')
-        print('cli case', repr(d['src']), 'file_nl', repr(d['file_nl']), 'config', cfg_key(cfg))
+        cfg = dict(cfg)
+        ec = cfg.pop('(editorconfig end_of_line)', None)
+        st, viols, _ = cli_case(d['src'], d['file_nl'], cfg, 'replay', ec)
+        print('cli case', repr(d['src']), 'file_nl', repr(d['file_nl']), 'config', cfg_key(cfg), 'editorconfig end_of_line', ec)
         print('expected: --check-only/--check-diff exit 1 iff --inplace changes the bytes; observed:', st, viols)
         sys.exit(1 if st == 'viol' else 0)
     if 'path' in d:
